@@ -18,7 +18,7 @@ Lemma try_patterns_up s ps u pw : try_patterns interp_code s SUp (0%nat :: ps) u
 Proof. cbn [try_patterns]. rewrite bind_at_first, verdict_up. reflexivity. Qed.
 
 Lemma try_patterns_silent s sv ps u pw : sv <> SUp -> try_patterns interp_code s sv ps u pw = None.
-Proof. intro H. induction ps as [|p r IH]; [reflexivity|]. destruct sv; [congruence| |]; simpl; exact IH. Qed.
+Proof. intro H. induction ps as [|p r IH]; [reflexivity|]. destruct sv; [congruence| | |]; simpl; exact IH. Qed.
 
 Lemma patterns_cons s : patterns s = 0%nat :: seq 1 (extra_patterns s).
 Proof. reflexivity. Qed.
@@ -31,19 +31,20 @@ Proof.
   - rewrite patterns_cons, try_patterns_up. intro H. inversion H. split; [left; reflexivity|reflexivity].
   - rewrite try_patterns_silent by discriminate. intro H. destruct (IH H) as [A B]. split; [right; exact A|exact B].
   - rewrite try_patterns_silent by discriminate. intro H. destruct (IH H) as [A B]. split; [right; exact A|exact B].
+  - rewrite try_patterns_silent by discriminate. intro H. destruct (IH H) as [A B]. split; [right; exact A|exact B].
 Qed.
 
 Lemma first_answer_none s svs u pw : first_answer s svs u pw = None -> ~ In SUp svs.
 Proof.
   unfold first_answer. induction svs as [|sv r IH]; cbn [first_answer_gen]; [simpl; tauto|].
-  destruct sv; [rewrite patterns_cons, try_patterns_up; discriminate| |];
+  destruct sv; [rewrite patterns_cons, try_patterns_up; discriminate| | |];
     rewrite try_patterns_silent by discriminate; intros H [C|C]; try discriminate; exact (IH H C).
 Qed.
 
 Lemma first_answer_in s svs u pw : In SUp svs -> first_answer s svs u pw = Some (dir_accepts s u pw).
 Proof.
   unfold first_answer. induction svs as [|sv r IH]; cbn [first_answer_gen]; [simpl; tauto|].
-  destruct sv; [rewrite patterns_cons, try_patterns_up; reflexivity| |];
+  destruct sv; [rewrite patterns_cons, try_patterns_up; reflexivity| | |];
     rewrite try_patterns_silent by discriminate; intros [C|C]; try discriminate; exact (IH C).
 Qed.
 
@@ -377,6 +378,7 @@ Proof.
   - rewrite !patterns_cons, !try_patterns_up. reflexivity.
   - rewrite !try_patterns_silent by discriminate. exact IH.
   - rewrite !try_patterns_silent by discriminate. exact IH.
+  - rewrite !try_patterns_silent by discriminate. exact IH.
 Qed.
 
 Lemma login_patterns_irrelevant s e u pw :
@@ -565,3 +567,37 @@ Lemma sticky_fallback_refuted2 :
   snd (pstep_sticky (prun_sticky 1 sticky_history2) (Login 1 7)) = Some true.
 Proof. vm_compute. repeat split; reflexivity. Qed.
 Local Close Scope N_scope.
+
+(* ------------------------------------------------------------------ the text test of the code before the repair *)
+(* CheckLDAPUserPassword looked for the words "Invalid Credentials" in the error text.  A replica that
+   answers every bind with another result code (busy, unavailable, operations error ...) and a
+   diagnostic that mentions those words was taken for a directory that REFUSES: with a healthy second
+   replica that would have accepted, alice's right password 7 is rejected and her cached hash evicted;
+   with no healthy replica at all the cache should fill the outage and instead the hash is evicted. *)
+Definition prun_text (n : nat) (ops : list pop) : pstate :=
+  fold_left (fun s o => fst (pstep_text s o)) ops (pinit n).
+Local Open Scope N_scope.
+Definition misleading_history : list pop :=
+  [ChangePw 1 7; PTick 1000%Z; Login 1 7; SetServer 0 SMisleading; Login 1 7].
+
+Lemma old_text_test_refuted :
+  let ops := removelast misleading_history in
+  (* two replicas, the second is up and the directory accepts *)
+  In SUp (servers (prun 2 ops)) /\ dir_accepts (prun 2 ops) 1 7 = true /\
+  snd (pstep_text (prun_text 2 ops) (Login 1 7)) = Some false /\
+  aget skey_eqb (1, pw_type) (signed (primary (st (fst (pstep_text (prun_text 2 ops) (Login 1 7)))))) = None /\
+  snd (pstep (prun 2 ops) (Login 1 7)) = Some true /\
+  (* one replica: nobody answers, the cache fills the outage - the text test rejects and evicts *)
+  snd (pstep (prun 1 ops) (Login 1 7)) = Some true /\
+  snd (pstep_text (prun_text 1 ops) (Login 1 7)) = Some false /\
+  aget skey_eqb (1, pw_type) (signed (cache (st (fst (pstep_text (prun_text 1 ops) (Login 1 7)))))) = None.
+Proof. vm_compute. repeat split; try reflexivity. right. left. reflexivity. Qed.
+Local Close Scope N_scope.
+
+(* only result code 49 is a verdict: any other result code, whatever its diagnostic says, is "this
+   server did not answer" *)
+Lemma other_code_no_verdict c d : c <> invalid_credentials -> verdict interp_code (RRefused c d) = None.
+Proof. intro H. cbn. unfold interp_code. destruct (N.eqb c invalid_credentials) eqn:E; [apply N.eqb_eq in E; congruence|reflexivity]. Qed.
+
+Lemma misleading_replica_silent s ps u pw : try_patterns interp_code s SMisleading ps u pw = None.
+Proof. apply try_patterns_silent. discriminate. Qed.
